@@ -146,7 +146,7 @@ theorem elems_bitmap {bits : Nat} (hp : isPlain c bits = false) (hd : isDense c 
   rw [toList_eq_map_get, List.flatMap_map]
   rfl
 
-theorem elems_plain {bits : Nat} (hp : isPlain c bits = true) (sz cap : Nat) (a : Tbl) :
+theorem elems_plain_rows {bits : Nat} (hp : isPlain c bits = true) (sz cap : Nat) (a : Tbl) :
     elems c (.heap sz cap bits a) = plainRest bits a 0 := by
   unfold elems plainRest
   simp only [hp, if_true, List.drop_zero]
@@ -181,7 +181,7 @@ theorem CInv_init (ok : CfgOK c) {r : Rp} (wf : WF c r) : CInv c r (cursorOf r) 
       by_cases hp : isPlain c bits = true
       · rw [if_pos hp] at wf
         rw [if_pos hp]
-        rw [elems_plain hp]
+        rw [elems_plain_rows hp]
         refine ⟨?_, rfl⟩
         show sz = _
         rw [wf.1.szc]
